@@ -105,6 +105,7 @@ class Desc:
         self.scaled = name in SCALED
         self.fields = tuple(f for k in self.kinds for f in R.KIND_FIELDS[k])
         self.gkinds = tuple(k for k in self.kinds if k in R.GROUP_FIELD)
+        self.square_kinds = tuple(k for k in self.kinds if phys.count(k) > 1)
         self.metas = tuple(m for k in self.gkinds for m in R.meta_fields(k))
         self._owner = {}
 
@@ -950,11 +951,13 @@ def plan(tier):
 
     quick     deep: depth 2 from the 'full' profile, shape 2 x 2 (x 2), every grouped/ungrouped combination
               wide: depth 1 from every shape {1,2,3}^axes of the profiles QUICK_PROFILES
-    thorough  deep: depth 3 from 'full', shape 2^axes, every grouping combination (three-axis classes: ungrouped and
-                    all-grouped); one-axis classes also 'dup' and shapes 1 and 3; the three base classes depth 4
-                    from 'full' shapes 1 and 2
-              wide: depth 2 from every shape of 'full', 'dup', 'bare' and from shape 2^axes of every 'one optional
-                    array absent' profile (ungrouped and all-grouped); depth 1 from every initial state
+    thorough  deep: depth 3 from 'full', shape 2^axes, ungrouped and all-grouped (three-axis and square-taxa-trait
+                    classes: ungrouped);
+                    one-axis classes also shapes 1 and 3 and 'dup' 2^axes; the three base classes depth 4 from
+                    'full' shapes 1 and 2
+              wide: depth 2 from every shape of 'full', from shapes 1/2/3^axes of 'dup' and 'bare', and from shape
+                    2^axes of every 'one optional array absent' profile (ungrouped and all-grouped; three-axis
+                    classes ungrouped); depth 1 from every initial state (all profiles, shapes, groupings)
     """
     out = []
     T = tier == "thorough"
@@ -981,18 +984,23 @@ def plan(tier):
                     out.append((name, inits[k:k + chunk], depth, nmax, None, True, gt))
 
         if T:
+            ends = "ends"
             if name in BASE3:
                 emit(initial_states(D, ["full"], {_s(D, 1), _s(D, 2)}), 4, nparts=2)
                 emit(initial_states(D, ["dup"], {_s(D, 1), _s(D, 2)}), 3)
                 emit(initial_states(D, ["full"], {_s(D, 3)}), 3, nparts=2)
             elif nl == 1:
-                emit(initial_states(D, ["full", "dup"], {_s(D, 1), _s(D, 2), _s(D, 3)}), 3, nparts=2)
+                emit(initial_states(D, ["full"], {_s(D, 1), _s(D, 2), _s(D, 3)}), 3, nparts=2)
+                emit(initial_states(D, ["dup"], {_s(D, 2)}), 3, nparts=2)
             elif nl == 2:
-                emit(initial_states(D, ["full"], {_s(D, 2)}), 3, nparts=4)
+                emit([i for i in initial_states(D, ["full"], {_s(D, 2)}, gmode=ends)
+                      if not (i["grouped"] and "taxa" in D.square_kinds and "trait" in D.kinds)], 3, nparts=4)
             else:
-                emit(initial_states(D, ["full"], {_s(D, 2)}, gmode="ends"), 3, nparts=10)
-            emit(initial_states(D, ["full", "dup", "bare"], gmode="ends"), 2, chunk={1: 6, 2: 2, 3: 1}[nl])
-            emit(initial_states(D, nox, {_s(D, 2)}, gmode="ends"), 2, chunk={1: 6, 2: 2, 3: 1}[nl])
+                emit([i for i in initial_states(D, ["full"], {_s(D, 2)}) if not i["grouped"]], 3, nparts=10)
+            wide2 = initial_states(D, ["full"], gmode=ends) + initial_states(D, ["dup", "bare"], {_s(D, 1), _s(D, 2), _s(D, 3)}, gmode=ends)
+            emit(wide2, 2, chunk={1: 6, 2: 2, 3: 1}[nl])
+            emit([i for i in initial_states(D, nox, {_s(D, 2)}, gmode=ends) if nl < 3 or not i["grouped"]], 2,
+                 chunk={1: 6, 2: 2, 3: 1}[nl])
             emit(initial_states(D, allp), 1, chunk={1: 40, 2: 24, 3: 12}[nl])
         else:
             emit(initial_states(D, ["full"], {_s(D, 2)}), 2, nparts={1: 1, 2: 3, 3: 4}[nl])
